@@ -614,3 +614,29 @@ func quotaRootNonNil(cmd command) bool {
 //@   results (result bool)
 //@   requires quotaRootNonNil(anyCmd)
 //@   ensures result == quotaRootGoesTo(anyCmd, mailbox)
+
+// A METADATA response goes to the pending GETMETADATA for that mailbox.
+//
+//@ pure
+func metadataGoesTo(cmd command, mailbox string) bool {
+	if g, ok := cmd.(*GetMetadataCommand); ok {
+		return g.mailbox == mailbox
+	}
+	return false
+}
+
+//@ pure
+func getMetadataNonNil(cmd command) bool {
+	if g, ok := cmd.(*GetMetadataCommand); ok {
+		return g != nil
+	}
+	return true
+}
+
+//@ closure 0 of func (c *Client) handleMetadata() (err error)
+//@   props C12:post,pre@call
+//@   params (anyCmd command)
+//@   captures (data *metadataResp)
+//@   results (result bool)
+//@   requires data != nil && getMetadataNonNil(anyCmd)
+//@   ensures result == metadataGoesTo(anyCmd, data.Mailbox)
